@@ -9,6 +9,11 @@
 #include "mac.h"
 #include "cipher.h"
 
+/* fault injection (h_cred `pfail=<k>`): the k-th primitive call of the current request fails.  0 = never (the Lean twins have
+ * no failing primitive; streams that use this are judged by the property oracle alone). */
+int toy_fail_at = 0, toy_calls = 0;
+#define TOY_TICK(failval) do { if (++toy_calls == toy_fail_at) return (failval); } while (0)
+
 /* ---------------------------------------------------------------- MAC */
 typedef struct { int n; unsigned long cnt; unsigned char h[64]; } toy_mac;
 
@@ -29,7 +34,7 @@ static void toy_absorb (toy_mac *t, unsigned char b) {
 }
 int mac_map_enum (munge_mac_t md, void *dst) { return (toy_mac_len (md) > 0) ? 0 : -1; }
 int mac_size (munge_mac_t md) { return toy_mac_len (md); }
-int mac_init (mac_ctx *x, munge_mac_t md, const void *key, int keylen) {
+int mac_init (mac_ctx *x, munge_mac_t md, const void *key, int keylen) { TOY_TICK (-1);
     toy_mac *t; int i, n = toy_mac_len (md);
     if (!x || !key || keylen < 0 || n < 0) return -1;
     t = malloc (sizeof *t);
@@ -40,14 +45,14 @@ int mac_init (mac_ctx *x, munge_mac_t md, const void *key, int keylen) {
     x->ctx = (void *) t; x->diglen = n;
     return 0;
 }
-int mac_update (mac_ctx *x, const void *src, int srclen) {
+int mac_update (mac_ctx *x, const void *src, int srclen) { TOY_TICK (-1);
     int i; toy_mac *t;
     if (!x || !x->ctx || !src || srclen < 0) return -1;
     t = (toy_mac *) x->ctx;
     for (i = 0; i < srclen; i++) toy_absorb (t, ((const unsigned char *) src)[i]);
     return 0;
 }
-int mac_final (mac_ctx *x, void *dst, int *dstlenp) {
+int mac_final (mac_ctx *x, void *dst, int *dstlenp) { TOY_TICK (-1);
     int r; toy_mac *t;
     if (!x || !x->ctx || !dst || !dstlenp) return -1;
     t = (toy_mac *) x->ctx;
@@ -91,7 +96,7 @@ int cipher_map_enum (munge_cipher_t c, void *dst) { return (toy_blk (c) > 0) ? 0
 int cipher_block_size (munge_cipher_t c) { return toy_blk (c); }
 int cipher_iv_size (munge_cipher_t c) { return toy_blk (c); }
 int cipher_key_size (munge_cipher_t c) { return toy_klen (c); }
-int cipher_init (cipher_ctx *x, munge_cipher_t c, unsigned char *key, unsigned char *iv, int enc) {
+int cipher_init (cipher_ctx *x, munge_cipher_t c, unsigned char *key, unsigned char *iv, int enc) { TOY_TICK (-1);
     toy_cipher *t;
     if (!x || !key || !iv || toy_blk (c) < 0) return -1;
     t = calloc (1, sizeof *t);
@@ -101,7 +106,7 @@ int cipher_init (cipher_ctx *x, munge_cipher_t c, unsigned char *key, unsigned c
     return 0;
 }
 /* all input is buffered by update (which outputs nothing); final produces everything */
-int cipher_update (cipher_ctx *x, void *dst, int *dstlenp, const void *src, int srclen) {
+int cipher_update (cipher_ctx *x, void *dst, int *dstlenp, const void *src, int srclen) { TOY_TICK (-1);
     toy_cipher *t;
     if (!x || !x->ctx || !dst || !dstlenp || *dstlenp < 0 || !src || srclen < 0) return -1;
     t = (toy_cipher *) x->ctx;
@@ -117,7 +122,7 @@ static void toy_E (toy_cipher *t, unsigned char *b) {
 static void toy_D (toy_cipher *t, unsigned char *b) {
     int i; for (i = 0; i < t->blk; i++) b[i] = (unsigned char) ((unsigned char) (b[i] - (i + 1)) ^ t->key[i % t->klen]);
 }
-int cipher_final (cipher_ctx *x, void *vdst, int *dstlenp) {
+int cipher_final (cipher_ctx *x, void *vdst, int *dstlenp) { TOY_TICK (-1);
     toy_cipher *t; unsigned char *dst = vdst; unsigned char prev[16], cur[16], blkbuf[16]; long off, nblk, cap; int i, pad;
     if (!x || !x->ctx || !dst || !dstlenp || *dstlenp < 0) return -1;
     t = (toy_cipher *) x->ctx;
@@ -219,17 +224,17 @@ static int toy_inflate (unsigned char tag0, unsigned char *dst, unsigned long *d
     *dstlen = o;
     return 0;
 }
-int compress (unsigned char *dest, unsigned long *destLen, const unsigned char *source, unsigned long sourceLen) {
+int compress (unsigned char *dest, unsigned long *destLen, const unsigned char *source, unsigned long sourceLen) { TOY_TICK (-4);
     return toy_deflate (0x00, dest, destLen, source, sourceLen);
 }
-int uncompress (unsigned char *dest, unsigned long *destLen, const unsigned char *source, unsigned long sourceLen) {
+int uncompress (unsigned char *dest, unsigned long *destLen, const unsigned char *source, unsigned long sourceLen) { TOY_TICK (-4);
     return toy_inflate (0x00, dest, destLen, source, sourceLen);
 }
-int BZ2_bzBuffToBuffCompress (char *dest, unsigned int *destLen, char *source, unsigned int sourceLen, int b, int v, int w) {
+int BZ2_bzBuffToBuffCompress (char *dest, unsigned int *destLen, char *source, unsigned int sourceLen, int b, int v, int w) { TOY_TICK (-3);
     unsigned long dl = *destLen; int rc = toy_deflate (0x10, (unsigned char *) dest, &dl, (unsigned char *) source, sourceLen);
     *destLen = (unsigned int) dl; return rc;
 }
-int BZ2_bzBuffToBuffDecompress (char *dest, unsigned int *destLen, char *source, unsigned int sourceLen, int s, int v) {
+int BZ2_bzBuffToBuffDecompress (char *dest, unsigned int *destLen, char *source, unsigned int sourceLen, int s, int v) { TOY_TICK (-3);
     unsigned long dl = *destLen; int rc = toy_inflate (0x10, (unsigned char *) dest, &dl, (unsigned char *) source, sourceLen);
     *destLen = (unsigned int) dl; return rc;
 }
